@@ -450,7 +450,17 @@ def oracle(case, irecs, mrecs):
                     (float(ssum), float(total)), i)
     return fails
 
-FAMILIES = [dict(name='varopt', harness='drv_varopt.cpp', extract='Extract_varopt.v', model='model_varopt', gen=gen, oracle=oracle,
+def crash_sig(case, text):
+    """names for the sanitizer stops this family has seen (each repaired by a fixes/16_*.patch; the name shows up again on an unrepaired tree)"""
+    if 'LeakSanitizer' in text and 'mark_moving_gadget_coercer' in text:
+        return 'coercer_throw_leak'                 # get_result() threw after the coercer had allocated and filled its arrays
+    if 'heap-buffer-overflow' in text and 'update_warmup_phase' in text:
+        return 'reset_after_deserialize_overflow'   # reset() kept arrays smaller than the start size
+    if 'not a valid value for type \'bool\'' in text:
+        return 'deserialize_marks_uninitialised'
+    return None
+
+FAMILIES = [dict(name='varopt', harness='drv_varopt.cpp', extract='Extract_varopt.v', model='model_varopt', gen=gen, oracle=oracle, crash_sig=crash_sig,
                  ocaml_flags='-rectypes -thread -package coq-core.kernel -linkpkg', cxx_flags='-ffp-contract=off')]
 
 MANIFEST = dict(
